@@ -216,17 +216,21 @@ type c14TokCase struct {
 	S      string   `json:"s"`
 	Before string   `json:"before"` // unquoted text in front of the literal ("" or text ending in a blank / separator / nothing)
 	After  string   `json:"after"`
+	Alias  int      `json:"alias,omitempty"` // csv: how the caller holds the lists it passes (see c09Case.Alias)
+	// Skip > 0: the caller's scanner holds that many characters of other text in front, which the caller has read
+	// itself before handing the scanner to TokenizeStream
+	Skip int `json:"skip,omitempty"`
 }
 
 func checkC14Tok(c c14TokCase) *evid.Fail {
 	var res *evid.Fail
 	if g := guard(func() {
 		var t tokenizers.ITokenizer
-		q := c.Quotes[0]
+		q := c.Quotes[(len(c.S)+len(c.After))%len(c.Quotes)] // any of the configured quote symbols
 		var st tokenizers.IQuoteState
 		if c.Tok == "csv" {
 			ct := csv.NewCsvTokenizer()
-			c09Configure(ct, c09Case{Seps: c.Seps, Quotes: c.Quotes, Setup: c.Setup})
+			c09Configure(ct, c09Case{Seps: c.Seps, Quotes: c.Quotes, Setup: c.Setup, Alias: c.Alias})
 			t, st = ct, ct.QuoteState()
 		} else {
 			et := ctok.NewExpressionTokenizer()
@@ -238,7 +242,15 @@ func checkC14Tok(c c14TokCase) *evid.Fail {
 		t.SetDecodeStrings(true)
 		var hits int
 		var all []string
-		for _, tk := range t.TokenizeBuffer(text) {
+		stream := t.TokenizeBuffer(text)
+		if c.Skip > 0 {
+			sc := rio.NewStringScanner(strings.Repeat("'skipped\n", c.Skip)[:c.Skip] + text)
+			for i := 0; i < c.Skip; i++ {
+				sc.Read()
+			}
+			stream = t.TokenizeStream(sc)
+		}
+		for _, tk := range stream {
 			all = append(all, fmt.Sprintf("%s(%q)", tokTypeName(tk.Type()), tk.Value()))
 			if tk.Type() == tokenizers.Quoted {
 				hits++
@@ -273,8 +285,8 @@ func init() { regReplay("C14.tok", checkC14Tok) }
 func TestC14_RapidTokenStreams(t *testing.T) {
 	rec := evid.New("C14", "TestC14_RapidTokenStreams", "C14.tok", c14Rule+"; through configured tokenizers: the encoded form, placed behind unquoted text and in front of a separator, in a CSV tokenizer configured in any order of setter calls (rejected calls included) or in the expression tokenizer, arrives as exactly one Quoted token carrying the original string")
 	defer finish(t, rec)
-	quotePool := []rune{'"', '\'', '`', '«', '“'}
-	sepPool := []rune{',', ';', '\t', '|', '，'}
+	quotePool := []rune{'"', '\'', '`', '«', '“', '”', '»'} // with neighbouring code points
+	sepPool := []rune{',', ';', '\t', '|', '，', '－', ':'}
 	runRapid(t, pick(20000, 150000), 1414, func(rt *rapid.T) {
 		c := c14TokCase{Tok: rapid.SampledFrom([]string{"csv", "csv", "expression"}).Draw(rt, "tok")}
 		c.Quotes = rapid.SliceOfNDistinct(rapid.SampledFrom(quotePool), 1, 2, func(r rune) rune { return r }).Draw(rt, "quotes")
@@ -292,6 +304,12 @@ func TestC14_RapidTokenStreams(t *testing.T) {
 			if pos < 2 {
 				c.Setup = append(c.Setup, valid[pos])
 			}
+		}
+		if c.Tok == "csv" && rapid.IntRange(0, 3).Draw(rt, "aliased") == 0 {
+			c.Alias = rapid.IntRange(1, 2).Draw(rt, "alias")
+		}
+		if rapid.IntRange(0, 3).Draw(rt, "skipped") == 0 {
+			c.Skip = rapid.IntRange(1, 12).Draw(rt, "skip")
 		}
 		n := rapid.IntRange(0, 12).Draw(rt, "len")
 		var sb strings.Builder
